@@ -147,6 +147,10 @@ class _Helper:
         b = list(self.node.body)
         if b and isinstance(b[0], ast.Expr) and isinstance(b[0].value, ast.Constant) and isinstance(b[0].value.value, str):
             b = b[1:]
+        if b and _has_return(b) and not _always_returns(b):
+            # falling off the end after some branches returned a value is `return None`
+            b = b + [ast.copy_location(ast.Return(value=ast.Constant(value=None)), b[-1])]
+            ast.fix_missing_locations(b[-1])
         return b
 
     def single_expression(self):
